@@ -68,6 +68,10 @@ func (c13) Gen(r *sim.Rand, tier string, run uint64) *sim.Scenario {
 		return start, end
 	}
 	pickAddr := func() int64 {
+		if r.Chance(1, 25) {
+			// beyond the 24-bit space: never attachable, so it must fail loudly too
+			return 0x1000000 + int64(r.Intn(0x100000))<<4*int64(r.Intn(2)) + int64(r.Intn(64))
+		}
 		if len(edges) > 0 && r.Chance(4, 5) {
 			e := edges[r.Intn(len(edges))]
 			a := e + int64(sim.PickInt(r, -17, -16, -15, -1, 0, 1, 15, 16, 17, r.Range(-40, 40)))
@@ -206,8 +210,29 @@ func (c13) Exec(sc *sim.Scenario, env *sim.Env) *sim.Violation {
 				nontrivial = true
 			}
 		case "read", "write":
-			a := uint32(op.Arg(0)) & 0xFFFFFF
+			a := uint32(op.Arg(0))
 			val := byte(op.Arg(1))
+			if a > 0xFFFFFF {
+				// an address outside the 24-bit space was never attached
+				var got byte
+				p, _ := sim.RecoverLib(func() {
+					if op.K == "read" {
+						got = b.EaRead(a)
+					} else {
+						b.EaWrite(a, val)
+					}
+				})
+				env.ObsBool(p)
+				st.Fault("access_beyond_24_bits")
+				nontrivial = true
+				if !p {
+					return &sim.Violation{Oracle: "hole_not_loud", Step: i, Msg: fmt.Sprintf("%s at %07x, beyond the 24-bit address space and therefore never attached, did not fail (returned %02x)", op.K, a, got)}
+				}
+				if logLen() != 0 {
+					return &sim.Violation{Oracle: "hole_touched_device", Step: i, Msg: fmt.Sprintf("%s at %07x (beyond 24 bits) reached a device with a truncated address", op.K, a)}
+				}
+				continue
+			}
 			own := owner[a>>4]
 			var want byte
 			if own >= 0 {
@@ -258,6 +283,9 @@ func (c13) Exec(sc *sim.Scenario, env *sim.Env) *sim.Violation {
 				return &sim.Violation{Oracle: "write_value", Step: i, Msg: fmt.Sprintf("EaWrite(%06x,%02x): device received %02x", a, val, ev.Val)}
 			}
 		case "read24":
+			if op.Arg(0) > 0xFFFFFF {
+				continue
+			}
 			a := uint32(op.Arg(0)) & 0xFFFFFF
 			if a&0xFFFF > 0xFFFD {
 				continue // wrap behaviour at the end of a bank is not this property's subject
@@ -299,6 +327,9 @@ func (c13) Exec(sc *sim.Scenario, env *sim.Env) *sim.Violation {
 				}
 			}
 		case "dump":
+			if op.Arg(0) > 0xFFFFFF {
+				continue
+			}
 			s, e := uint32(op.Arg(0))&0xFFFFFF, uint32(op.Arg(1))&0xFFFFFF
 			if e < s || e-s > 4096 {
 				continue
